@@ -72,9 +72,19 @@ def stepD (d : DSt) : List String → DSt × String
   | "cmd" :: pfx :: rest =>
     match dec pfx, decCmd rest with
     | some pfx, some c =>
-      let r := step d.cfg d.st pfx c
+      let r := step d.cfg d.st pfx c none
       ({ d with st := r.1 }, encB r.2 ++ "\t" ++ encSt r.1)
     | _, _ => (d, "bad-op")
+  | "cmdin" :: ch :: pfx :: rest =>
+    -- the same message sent to channel `ch` (Ev.cmdIn)
+    match dec ch, dec pfx, decCmd rest with
+    | some ch, some pfx, some c =>
+      (match c.inChannel ch with
+       | some c' =>
+         let r := step d.cfg d.st pfx c' (some ch)
+         ({ d with st := r.1 }, encB r.2 ++ "\t" ++ encSt r.1)
+       | none => (d, encB false ++ "\t" ++ encSt d.st))
+    | _, _, _ => (d, "bad-op")
   | ["order", uo, co] =>
     -- id=cap+cap;…   and   name=cap+cap;…
     let decU : Option (List (Nat × List Str)) :=
